@@ -435,6 +435,12 @@ def scan_partial_ops(fi, nodes_iter, tainted, skip_protected_from=None, dict_var
             else:
                 if _is_loop_position(sl):
                     continue
+                if isinstance(sl, ast.Name) and dict_vars and isinstance(sub.value, ast.Name) and sub.value.id in dict_vars:
+                    cv = _constant_values(fi, sl.id)
+                    if cv is not None and cv <= set(producer_keys):
+                        continue      # the key is one of a few constant field names, all guaranteed by the producer
+                if _own_dict_key(fi, sub):
+                    continue
                 if tainted(sl) and not _membership_guard(sub):
                     yield sub, ("subscript %s with a line-derived key/index and no membership guard (KeyError/"
                                 "IndexError)" % unparse(sub))
@@ -477,8 +483,106 @@ def scan_partial_ops(fi, nodes_iter, tainted, skip_protected_from=None, dict_var
                 if isinstance(t, (ast.Tuple, ast.List)) and not isinstance(sub.value, (ast.Tuple, ast.List)):
                     if tainted(sub.value) and isinstance(sub.value, ast.Call):
                         cn = sub.value.func.attr if isinstance(sub.value.func, ast.Attribute) else ""
+                        if cn == "split" and len(sub.targets) == 1 and _split_unpack_values(sub) is not None:
+                            continue      # the text is one of a few constants that all split into that many parts
                         if cn in ("split", "rsplit", "partition", "rpartition") and cn.endswith("split"):
                             yield sub, "tuple-unpacking of %s: the number of parts depends on the line" % unparse(sub.value)
+
+
+def _member_constants(node, name):
+    """constants c1..cn when `node` lies in the true branch of an enclosing `if <name> in (c1, .., cn)` (all string constants)"""
+    cur = node
+    for par in parents(node):
+        if isinstance(par, ast.If) and in_block(cur, par.body):
+            t = par.test
+            if isinstance(t, ast.Compare) and len(t.ops) == 1 and isinstance(t.ops[0], ast.In) and isinstance(t.left, ast.Name) \
+                    and t.left.id == name and isinstance(t.comparators[0], (ast.Tuple, ast.List, ast.Set)) and t.comparators[0].elts \
+                    and all(isinstance(e, ast.Constant) and isinstance(e.value, str) for e in t.comparators[0].elts):
+                return [e.value for e in t.comparators[0].elts]
+        if isinstance(par, (ast.FunctionDef, ast.Lambda)):
+            break
+        cur = par
+    return None
+
+
+def _split_unpack_values(assign):
+    """for `a, b = x.split(sep)` under `if x in (c1, ..)`: per target position the set of constant strings, or None"""
+    v = assign.value
+    if not (isinstance(v, ast.Call) and isinstance(v.func, ast.Attribute) and v.func.attr == "split" and isinstance(v.func.value, ast.Name)
+            and len(v.args) == 1 and isinstance(v.args[0], ast.Constant) and isinstance(v.args[0].value, str) and not v.keywords):
+        return None
+    consts = _member_constants(assign, v.func.value.id)
+    t = assign.targets[0]
+    if consts is None or not isinstance(t, (ast.Tuple, ast.List)):
+        return None
+    parts = [c.split(v.args[0].value) for c in consts]
+    if any(len(p_) != len(t.elts) for p_ in parts):
+        return None
+    return [{p_[i] for p_ in parts} for i in range(len(t.elts))]
+
+
+def _constant_values(fi, name):
+    """the set of constant strings a local can hold when every one of its definitions is a string constant, an element of a tuple
+    of constants, or a part of a membership-guarded constant split; None otherwise"""
+    out = set()
+    found = False
+    for a in walk_shallow(fi.node):
+        if not isinstance(a, ast.Assign):
+            continue
+        for t in a.targets:
+            if isinstance(t, ast.Name) and t.id == name:
+                found = True
+                if isinstance(a.value, ast.Constant) and isinstance(a.value.value, str):
+                    out.add(a.value.value)
+                else:
+                    return None
+            elif isinstance(t, (ast.Tuple, ast.List)) and any(isinstance(e, ast.Name) and e.id == name for e in t.elts):
+                found = True
+                i = next(k for k, e in enumerate(t.elts) if isinstance(e, ast.Name) and e.id == name)
+                if isinstance(a.value, (ast.Tuple, ast.List)) and len(a.value.elts) == len(t.elts) \
+                        and isinstance(a.value.elts[i], ast.Constant) and isinstance(a.value.elts[i].value, str):
+                    out.add(a.value.elts[i].value)
+                else:
+                    vals = _split_unpack_values(a) if len(a.targets) == 1 else None
+                    if vals is None:
+                        return None
+                    out |= vals[i]
+    for sub in walk_shallow(fi.node):
+        if isinstance(sub, (ast.For, ast.AugAssign, ast.With, ast.NamedExpr, ast.comprehension)):
+            tg = sub.target if hasattr(sub, "target") else None
+            if tg is not None and any(isinstance(x, ast.Name) and x.id == name for x in ast.walk(tg)):
+                return None
+    return out if found else None
+
+
+def _own_dict_key(fi, sub):
+    """`D[k]` where every definition of the local D is a dict display that lists the name k as a key, written right after k was
+    bound in the same block, and k is bound nowhere else: the key is present by construction"""
+    if not (isinstance(sub.value, ast.Name) and isinstance(sub.slice, ast.Name)):
+        return False
+    d, k = sub.value.id, sub.slice.id
+    if _constant_values(fi, k) is None:
+        return False
+    ddefs = [a for a in walk_shallow(fi.node) if isinstance(a, ast.Assign) and any(isinstance(t, ast.Name) and t.id == d for t in a.targets)]
+    kdefs = [a for a in walk_shallow(fi.node) if isinstance(a, ast.Assign) and any(
+        isinstance(x, ast.Name) and x.id == k and isinstance(x.ctx, ast.Store) for t in a.targets for x in ast.walk(t))]
+    if not ddefs or len(ddefs) != len(kdefs):
+        return False
+    for a in ddefs:
+        if not (isinstance(a.value, ast.Dict) and any(isinstance(kk, ast.Name) and kk.id == k for kk in a.value.keys)):
+            return False
+        blk = getattr(a._parent, "body", None) if hasattr(a, "_parent") else None
+        holder = None
+        for fld in ("body", "orelse", "finalbody"):
+            b = getattr(a._parent, fld, None)
+            if isinstance(b, list) and any(x is a for x in b):
+                holder = b
+        if holder is None:
+            return False
+        idx = next(i for i, x in enumerate(holder) if x is a)
+        if not any(any(y is x for y in kdefs) for x in holder[:idx]):
+            return False
+    return True
 
 
 def _is_loop_position(sl):
